@@ -4,7 +4,7 @@ seeded/<ID>*/patch.diff) to a scratch copy of the repository, optionally
 confirm the pinned suite still passes, run the quick check with
 VERIF_REPO=<scratch> and require exit 1 with a VIOLATION line.
 
-usage: selftest.py [--suite] [--tier quick] [ID ...] [--only name-substring]
+usage: selftest.py [--suite] [--mutants-only] [ID ...] [--only name-substring]
 Results are appended to mutants/RESULTS.json (committed)."""
 import glob
 import json
@@ -33,7 +33,7 @@ def main():
     patches = []
     for p in sorted(glob.glob(os.path.join(ROOT, 'mutants', '*', '*.patch'))):
         patches.append((os.path.basename(os.path.dirname(p)), p))
-    for p in sorted(glob.glob(os.path.join(ROOT, 'seeded', '*', 'patch.diff'))):
+    for p in ([] if '--mutants-only' in args else sorted(glob.glob(os.path.join(ROOT, 'seeded', '*', 'patch.diff')))):
         meta = os.path.join(os.path.dirname(p), 'meta.json')
         md = json.load(open(meta)) if os.path.exists(meta) else {}
         if md.get('obsolete'):
